@@ -254,6 +254,7 @@ type bootID struct {
 }
 
 type universe struct {
+	addrKind  map[int]string // owner -> shape of its key address
 	keys      map[int]key
 	boot      map[[2]int]bootID
 	script    []byte // native script CBOR (all-of [])
@@ -281,7 +282,7 @@ func byronAddress(root, attrs []byte) []byte {
 }
 
 func newUniverse(rng *rand.Rand) *universe {
-	u := &universe{keys: map[int]key{}, boot: map[[2]int]bootID{}, byronAddr: map[int][]byte{}}
+	u := &universe{keys: map[int]key{}, boot: map[[2]int]bootID{}, byronAddr: map[int][]byte{}, addrKind: map[int]string{}}
 	for k := 1; k <= 3; k++ {
 		seed := make([]byte, ed25519.SeedSize)
 		rng.Read(seed)
@@ -313,6 +314,9 @@ func newUniverse(rng *rand.Rand) *universe {
 		u.boot[[2]int{k, 1}] = b1
 		u.byronAddr[k] = byronAddress(u.boot[[2]int{k, 0}].root, attrsOf[k])
 	}
+	kinds := []string{"enterprise", "base_key_key", "base_key_script", "pointer"}
+	u.addrKind[1] = kinds[rng.Intn(4)]
+	u.addrKind[2] = kinds[rng.Intn(4)]
 	u.script = cArr(cUint(1), cArr()) // all-of []
 	u.scriptH = blake224(append([]byte{0}, u.script...))
 	return u
@@ -321,7 +325,17 @@ func newUniverse(rng *rand.Rand) *universe {
 func (u *universe) address(l lock) []byte {
 	switch l.Kind {
 	case "key":
-		return append([]byte{0x60 | networkID}, u.keys[l.K].hash...)
+		// the payment credential is the owner's key hash in every shape
+		pay := u.keys[l.K].hash
+		switch u.addrKind[l.K] {
+		case "base_key_key":
+			return append(append([]byte{0x00 | networkID}, pay...), u.keys[3].hash...)
+		case "base_key_script":
+			return append(append([]byte{0x20 | networkID}, pay...), u.scriptH...)
+		case "pointer":
+			return append(append([]byte{0x40 | networkID}, pay...), 0x81, 0x23, 0x02, 0x03)
+		}
+		return append([]byte{0x60 | networkID}, pay...)
 	case "byron":
 		return u.byronAddr[l.K]
 	}
@@ -350,6 +364,7 @@ type eraEnv struct {
 	sigRules  []common.UtxoValidationRuleFunc
 	sigNames  []string
 	alonzoUp  bool // has collateral (13) and required signers (14)
+	sets      bool // accepts #6.258 sets (Conway and later)
 	fourParts bool // [body, wits, is_valid, aux] envelope
 	decodeTx  func([]byte) (common.Transaction, error)
 	decodeOut func([]byte) (common.TransactionOutput, error)
@@ -405,11 +420,11 @@ func eras(u *universe) ([]*eraEnv, error) {
 		{name: "babbage", pp: &bap, rules: babbage.UtxoValidationRules, alonzoUp: true, fourParts: true,
 			decodeTx:  func(b []byte) (common.Transaction, error) { return babbage.NewBabbageTransactionFromCbor(b) },
 			decodeOut: baOut},
-		{name: "conway", pp: &cop, rules: conway.UtxoValidationRules, alonzoUp: true, fourParts: true,
+		{name: "conway", pp: &cop, rules: conway.UtxoValidationRules, alonzoUp: true, fourParts: true, sets: true,
 			decodeTx:  func(b []byte) (common.Transaction, error) { return conway.NewConwayTransactionFromCbor(b) },
 			decodeOut: baOut},
 		{name: "dijkstra", pp: &dijkstra.DijkstraProtocolParameters{ConwayProtocolParameters: dip},
-			rules: dijkstra.UtxoValidationRules, alonzoUp: true, fourParts: true,
+			rules: dijkstra.UtxoValidationRules, alonzoUp: true, fourParts: true, sets: true,
 			decodeTx:  func(b []byte) (common.Transaction, error) { return dijkstra.NewDijkstraTransactionFromCbor(b) },
 			decodeOut: baOut},
 	}
@@ -492,6 +507,11 @@ func mix(seed int64, s string, salt int) int {
 
 func build(e *eraEnv, u *universe, r *row, seed int64) (*built, error) {
 	ck := r.caseKey()
+	// Conway and later: half of the cases write their sets with tag 258
+	set := func(items ...[]byte) []byte { return cArr(items...) }
+	if e.sets && mix(seed, ck, 500)%2 == 0 {
+		set = func(items ...[]byte) []byte { return cTag(258, cArr(items...)) }
+	}
 	var ins, coll, req [][]byte
 	for _, l := range r.Ins {
 		txid, ix := utxoRef("in", l)
@@ -506,15 +526,15 @@ func build(e *eraEnv, u *universe, r *row, seed int64) (*built, error) {
 	}
 	payTo := append([]byte{0x60 | networkID}, u.keys[1].hash...)
 	body := []kv{
-		{0, cArr(ins...)},
+		{0, set(ins...)},
 		{1, cArr(cArr(cBytes(payTo), cUint(48_000_000)))},
 		{2, cUint(2_000_000)},
 	}
 	if len(coll) > 0 {
-		body = append(body, kv{13, cArr(coll...)})
+		body = append(body, kv{13, set(coll...)})
 	}
 	if len(req) > 0 {
-		body = append(body, kv{14, cArr(req...)})
+		body = append(body, kv{14, set(req...)})
 	}
 	bodyBytes := cMap(body...)
 	bh := blake2b.Sum256(bodyBytes)
@@ -545,15 +565,15 @@ func build(e *eraEnv, u *universe, r *row, seed int64) (*built, error) {
 	}
 	var wits []kv
 	if len(vk) > 0 {
-		wits = append(wits, kv{0, cArr(vk...)})
+		wits = append(wits, kv{0, set(vk...)})
 	}
 	for _, l := range r.Ins {
 		if l.Kind == "script" {
-			wits = append(wits, kv{1, cArr(u.script)})
+			wits = append(wits, kv{1, set(u.script)})
 		}
 	}
 	if len(bw) > 0 {
-		wits = append(wits, kv{2, cArr(bw...)})
+		wits = append(wits, kv{2, set(bw...)})
 	}
 	witBytes := cMap(wits...)
 	if e.fourParts {
@@ -684,6 +704,18 @@ func main() {
 	var wg sync.WaitGroup
 	var mu sync.Mutex
 	silentRejected := map[string]int{}
+	reported, suppressed := map[string]int{}, 0
+	// five replays per (era, direction, reason) are enough
+	more := func(class string) bool {
+		mu.Lock()
+		defer mu.Unlock()
+		reported[class]++
+		if reported[class] > 5 {
+			suppressed++
+			return false
+		}
+		return true
+	}
 	acceptedPerEra, rejectedPerEra := map[string]int{}, map[string]int{}
 	skipped := 0
 	workers := runtime.NumCPU()
@@ -725,6 +757,9 @@ func main() {
 				mu.Unlock()
 				switch {
 				case v.accept && !r.Accept:
+					if !more(e.name + ":accept:" + strings.Join(r.Why, "+")) {
+						continue
+					}
 					rep.Disagree(key+":code=accept:spec=reject",
 						fmt.Sprintf("signature validation of %s accepts (rules %v) a transaction the specification rejects because of %v",
 							e.name, e.sigNames, r.Why), replay)
@@ -733,6 +768,9 @@ func main() {
 					silentRejected[e.name]++
 					mu.Unlock()
 				case !v.accept && r.Accept:
+					if !more(e.name + ":reject") {
+						continue
+					}
 					rep.Disagree(key+":code=reject:spec=accept",
 						fmt.Sprintf("signature validation of %s rejects a transaction whose owners and required signers are all witnessed by valid signatures: %v",
 							e.name, v.fails), replay)
@@ -770,6 +808,10 @@ func main() {
 	rep.Extra["rows"] = len(rows)
 	rep.Extra["rows_not_applicable_pre_alonzo"] = skipped
 	rep.Extra["property_silent_byron_collateral_with_bootstrap_witness_rejected"] = silentRejected
+	rep.Extra["key_address_shapes"] = map[string]string{"owner1": u.addrKind[1], "owner2": u.addrKind[2]}
+	if suppressed > 0 {
+		rep.Extra["further_disagreements_of_an_already_reported_era_and_reason"] = suppressed
+	}
 	rep.Extra["variant1_realisation"] = map[string]string{
 		"owner1": u.boot[[2]int{1, 1}].how, "owner2": u.boot[[2]int{2, 1}].how,
 	}
